@@ -188,14 +188,45 @@ func checkC04(w *World, r *Report) {
 		}
 		var bad []string
 		n := 0
-		for _, e := range exs {
-			if e.fn != fn {
-				continue
+		// the excursions as the matching routine sees them: inside the quantities and payments it accumulates
+		// (helpers are inlined by the term engine, so outlining the arithmetic does not change anything)
+		var roots []*Term
+		seenRoot := map[string]bool{}
+		collect := func(t *Term) {
+			t.Walk(func(x *Term) bool {
+				if isExcursionRoot(x) && !seenRoot[x.Key()] {
+					seenRoot[x.Key()] = true
+					roots = append(roots, x)
+				}
+				return true
+			})
+		}
+		for _, b := range fn.Blocks {
+			for _, in := range b.Instrs {
+				st, ok := in.(*ssa.Store)
+				if !ok {
+					continue
+				}
+				fa, ok := st.Addr.(*ssa.FieldAddr)
+				if !ok || structOf(fa.X.Type()) == nil {
+					continue
+				}
+				switch structOf(fa.X.Type()).Field(fa.Field).Name() {
+				case "MatchedAmount", "PayingAmount":
+					if call, ok := st.Val.(*ssa.Call); ok && callKey(&call.Call) == mathPath+".Int.Add" && len(call.Call.Args) == 2 {
+						collect(tm.Of(fr, call.Call.Args[1]))
+					}
+				}
 			}
+		}
+		for _, e := range roots {
 			n++
-			// the price operand(s): any PRICE leaf must be the parameter
+			role := "payment"
+			if strings.Contains(skeleton(e), "Quo") {
+				role = "quantity"
+			}
 			var prices []string
-			for _, t := range mathLeaves(e.t) {
+			for _, t := range mathLeaves(e) {
 				switch {
 				case t.Op == "param" && t.V != nil && isNamed(t.V.Type(), mathPath, "LegacyDec"):
 					prices = append(prices, "param:"+t.Name)
@@ -207,11 +238,11 @@ func checkC04(w *World, r *Report) {
 			}
 			for _, p := range prices {
 				if p != "param:"+priceParam {
-					bad = append(bad, fmt.Sprintf("%s at %s uses %s instead of the match-price parameter %q (pay-as-bid / per-level pricing)", e.role, w.instrPos(e.in), p, priceParam))
+					bad = append(bad, fmt.Sprintf("a %s (%s) uses %s instead of the match-price parameter %q (pay-as-bid / per-level pricing)", role, skeleton(e), p, priceParam))
 				}
 			}
 			if len(prices) == 0 {
-				bad = append(bad, fmt.Sprintf("%s at %s uses no price", e.role, w.instrPos(e.in)))
+				bad = append(bad, fmt.Sprintf("a %s (%s) uses no price", role, skeleton(e)))
 			}
 		}
 		// the published match price is the parameter
